@@ -2,7 +2,7 @@
    (RQ, ideal disk): the two arithmetic hypotheses of PipelineProofs.v
    (no_zero_div, wf of the loaded ruleset) are discharged, and the
    probabilities of all guesses of a complete session sum to 1. *)
-From Coq Require Import String List NArith ZArith QArith Bool Lia Sorting.Permutation Sorting.Sorted.
+From Coq Require Import String List NArith ZArith QArith Bool Lia Lqa Sorting.Permutation Sorting.Sorted.
 From Pcfg Require Import ProbAlg QProb Str Detect Segment TextFile TextFileProofs Counters CountersProofs LtallyProofs IoFacts
      Loader Next NextSpec NextProofs QSum Expand Pipeline PipelineStr PipelineTrain PipelineLoad PipelineProofs.
 Import ListNotations.
@@ -122,11 +122,234 @@ Proof.
 Qed.
 
 (* group probability times group size, summed = sum of the line probabilities *)
+Lemma Qsum_cons a l : Qsum (a :: l) = (a + Qsum l)%Q.
+Proof. reflexivity. Qed.
+
 Lemma ggroups_mass : forall (l : list (TextFile.str * Q)) (p : Q) vs,
   (Qsum (map (fun g : list TextFile.str * Q => snd g * Qn (length (fst g))) (ggroups RQ p vs l))
    == p * Qn (length vs) + Qsum (map snd l))%Q.
 Proof.
   induction l as [|[v q] r IH]; intros p vs; cbn [ggroups].
-  - cbn [map Qsum fold_right fst snd]. rewrite rev_length. ring.
+  - cbn [map]. rewrite Qsum_cons. cbn [fst snd]. rewrite rev_length. cbn [map]. unfold Qsum at 1 2. cbn [fold_right]. ring.
   - change (a_eqb RQ q p) with (Qeq_bool q p). destruct (Qeq_bool q p) eqn:Eq.
-    + apply Qeq_bool_iff in Eq. rewrite IH. cbn [length map snd Qsum fold_right]. rewrite Qn_S, Eq. Show. Set Printing All. Show.
+    + apply Qeq_bool_iff in Eq. rewrite IH. cbn [length map snd]. rewrite Qsum_cons, Qn_S, Eq. ring.
+    + cbn [map]. rewrite !Qsum_cons. cbn [fst snd]. rewrite IH. rewrite rev_length. cbn [length]. rewrite Qn_S.
+      unfold Qn at 2. cbn [Z.of_nat]. ring.
+Qed.
+
+Lemma ggroup_mass (l : list (TextFile.str * Q)) :
+  (Qsum (map (fun g : list TextFile.str * Q => snd g * Qn (length (fst g))) (ggroup RQ l)) == Qsum (map snd l))%Q.
+Proof.
+  destruct l as [|[v p] r]; [reflexivity|]. cbn [ggroup]. rewrite ggroups_mass.
+  cbn [length map snd]. rewrite Qsum_cons, Qn_S. unfold Qn. cbn [Z.of_nat]. ring.
+Qed.
+
+Lemma groups_of_mass_Q : forall items, items <> [] ->
+  (Qsum (map (fun g : list TextFile.str * Q => snd g * Qn (length (fst g))) (groups_of RQ (Counters.tally items))) == 1)%Q.
+Proof.
+  intros items Hne. unfold groups_of.
+  etransitivity; [exact (ggroup_mass (calc_probs (@of_counts QNum (Counters.tally items))))|].
+  exact (proj2 sum_one_Q items Hne).
+Qed.
+
+(* ------------------------------------------------------------------ *)
+(* small facts about lists, dictionaries and sums                      *)
+(* ------------------------------------------------------------------ *)
+
+Lemma Forall2_in_r {X Y} (P : X -> Y -> Prop) l l' y :
+  Forall2 P l l' -> In y l' -> exists x, In x l /\ P x y.
+Proof.
+  induction 1 as [|a b l l' Hab _ IH]; intros Hy; [contradiction|].
+  destruct Hy as [<-|Hy]; [exists a; split; [now left|assumption]|].
+  destruct (IH Hy) as (x & Hx & Hp). exists x. split; [now right|assumption].
+Qed.
+
+Lemma vars_of_Forall2 {A} (g : grammar A) : forall names vs,
+  vars_of g names = Some vs -> Forall2 (fun n v => var_of g n = Some v) names vs.
+Proof.
+  induction names as [|n names IH]; intros vs H; cbn [vars_of] in H.
+  - injection H as <-. constructor.
+  - destruct (var_of g n) as [v|] eqn:Ev; [|discriminate]. destruct (vars_of g names) as [vs'|]; [|discriminate].
+    injection H as <-. constructor; [assumption|now apply IH].
+Qed.
+
+Lemma scan_M_in {T} : forall (ls : list (TextFile.str * T)) pm, Loader.scan_M ls = Some pm -> In (M_key, pm) ls.
+Proof.
+  induction ls as [|[s p] r IH]; intros pm H; cbn [Loader.scan_M] in H; [discriminate|].
+  destruct (Loader.is_M s) eqn:Es.
+  - apply is_M_iff in Es. injection H as <-. subst s. now left.
+  - right. now apply IH.
+Qed.
+
+Lemma filter_M_absent {T} : forall (ls : list (TextFile.str * T)),
+  ~ In M_key (map fst ls) -> filter (fun l => Loader.is_M (fst l)) ls = [].
+Proof.
+  induction ls as [|[s p] r IH]; intros Hn; [reflexivity|]. cbn [filter fst].
+  destruct (Loader.is_M s) eqn:Es.
+  - apply is_M_iff in Es. exfalso. apply Hn. left. exact Es.
+  - apply IH. intros H. apply Hn. now right.
+Qed.
+
+(* with distinct keys, the Markov lines are the line the first scan finds *)
+Lemma Qsum_M_lines : forall (ls : list (TextFile.str * Q)), NoDup (map fst ls) ->
+  (Qsum (map snd (filter (fun l => Loader.is_M (fst l)) ls))
+   == match Loader.scan_M ls with Some pm => pm | None => 0 end)%Q.
+Proof.
+  induction ls as [|[s p] r IH]; intros Hn; [reflexivity|].
+  cbn [map fst] in Hn. inversion Hn as [|? ? Hs Hn']; subst.
+  cbn [filter fst Loader.scan_M]. destruct (Loader.is_M s) eqn:Es.
+  - apply is_M_iff in Es. subst s. rewrite (filter_M_absent r Hs). cbn [map snd]. rewrite Qsum_cons. cbn. ring.
+  - now apply IH.
+Qed.
+
+Lemma Qsum_filter_split {X} (f : X -> bool) (w : X -> Q) : forall l,
+  (Qsum (map w l) == Qsum (map w (filter f l)) + Qsum (map w (filter (fun x => negb (f x)) l)))%Q.
+Proof.
+  induction l as [|a l IH]; [reflexivity|]. cbn [map filter]. rewrite Qsum_cons, IH.
+  destruct (f a); cbn [negb map]; rewrite Qsum_cons; ring.
+Qed.
+
+Lemma Qsum_map_div {X} (w : X -> Q) (t : Q) : forall l,
+  (Qsum (map (fun x => w x / t) l) == Qsum (map w l) / t)%Q.
+Proof.
+  induction l as [|a l IH]; cbn [map]; [unfold Qdiv; cbn; ring|]. rewrite !Qsum_cons, IH. unfold Qdiv. ring.
+Qed.
+
+Lemma combine_map_map {X Y Z} (f : X -> Y) (g : X -> Z) : forall l, combine (map f l) (map g l) = map (fun x => (f x, g x)) l.
+Proof. induction l as [|a l IH]; cbn [map combine]; [reflexivity|]. now rewrite IH. Qed.
+
+(* ------------------------------------------------------------------ *)
+(* exact rationals: Grammar/grammar.txt                                *)
+(* ------------------------------------------------------------------ *)
+
+Section Q.
+Variable E : env.
+Hypothesis HE : env_ok E.
+
+(* coverage: 0 < cov <= 1 *)
+Definition cov_ok (o : options QProb) : Prop := (0 < (o_cov o : Q))%Q /\ ((o_cov o : Q) <= 1)%Q.
+
+(* a structure string is not the Markov structure *)
+Lemma structure_not_M r : parsed_ok E r -> structure_of r <> M_key.
+Proof.
+  intros Hok Heq. pose proof (toks_structure E HE r Hok) as H. rewrite Heq, (toks_M E HE) in H.
+  pose proof (has_M_labels (p_base r)) as H2. rewrite <- H in H2. discriminate.
+Qed.
+
+(* the supported structures, one per password *)
+Definition sup_items (rs : list parsed) : list TextFile.str :=
+  map structure (filter supported (map (fun r => map label_str (p_base r)) rs)).
+
+Lemma sup_items_in rs r : In r rs -> r_supported r = true -> In (structure_of r) (sup_items rs).
+Proof.
+  intros Hr Hs. unfold sup_items, structure_of. apply in_map. apply filter_In. split.
+  - apply in_map_iff. now exists r.
+  - rewrite supported_labels. exact Hs.
+Qed.
+
+Lemma sup_items_inv rs k : In k (sup_items rs) -> exists r, In r rs /\ k = structure_of r.
+Proof.
+  unfold sup_items. intros H. apply in_map_iff in H. destruct H as (ls & <- & Hls). apply filter_In in Hls.
+  destruct Hls as (Hls & _). apply in_map_iff in Hls. destruct Hls as (r & <- & Hr). now exists r.
+Qed.
+
+Lemma M_not_sup rs : Forall (parsed_ok E) rs -> ~ In M_key (sup_items rs).
+Proof.
+  intros Hrs H. destruct (sup_items_inv rs _ H) as (r & Hr & Heq). rewrite Forall_forall in Hrs.
+  apply (structure_not_M r (Hrs r Hr)). now symmetry.
+Qed.
+
+Lemma base_counter_eq (o : options QProb) raw rs :
+  base_counter RQ (trained_of E o raw rs) =
+  @with_markov QNum (o_cov o) (N.of_nat (length (train_pws E raw))) (@of_counts QNum (Counters.tally (sup_items rs))).
+Proof.
+  unfold base_counter. cbn [trained_of t_counters t_cov t_n counters_of pc_structs].
+  rewrite count_structs_base_is_tally. reflexivity.
+Qed.
+
+Lemma markov_count_nonneg (n cov : Q) : (0 <= n)%Q -> (0 < cov)%Q -> (cov <= 1)%Q -> (0 <= n / cov - n)%Q.
+Proof.
+  intros Hn H0 H1. setoid_replace (n / cov - n)%Q with (n * ((1 - cov) * / cov))%Q.
+  - apply Qmult_le_0_compat; [assumption|]. apply Qmult_le_0_compat.
+    + exact (proj1 (Qle_minus_iff cov 1) H1).
+    + apply Qinv_le_0_compat. now apply Qlt_le_weak.
+  - field. intros H. rewrite H in H0. exact (Qlt_irrefl _ H0).
+Qed.
+
+(* the counter Grammar/grammar.txt is written from *)
+Lemma base_counter_facts (o : options QProb) raw rs r :
+  cov_ok o -> Forall (parsed_ok E) rs -> In r rs -> r_supported r = true ->
+  let bc : counter QNum := base_counter RQ (trained_of E o raw rs) in
+  (0 < Counters.total bc)%Q /\ NoDup (map fst bc) /\ (forall k n, In (k, n) bc -> (0 <= n)%Q) /\
+  (forall m, In (M_key, m) bc -> (m < Counters.total bc)%Q).
+Proof.
+  intros (Hc0 & Hc1) Hrs Hr Hsup bc. unfold bc. rewrite base_counter_eq. clear bc.
+  set (items := sup_items rs). set (c := @of_counts QNum (Counters.tally items)).
+  set (n := N.of_nat (length (train_pws E raw))).
+  assert (Hkeys : map fst c = map fst (Counters.tally items)).
+  { unfold c, of_counts. rewrite map_map. reflexivity. }
+  assert (HT : (0 < Counters.total c)%Q).
+  { unfold c. rewrite total_tally_Q. pose proof (sup_items_in rs r Hr Hsup) as Hin. fold items in Hin.
+    destruct items as [|x xs]; [contradiction|]. change 0%Q with (inject_Z 0). rewrite <- Zlt_Qlt. cbn [length]. lia. }
+  assert (HM : ~ In M_key (map fst c)).
+  { rewrite Hkeys, tally_keys_in. now apply M_not_sup. }
+  assert (Hnd : NoDup (map fst c)) by (rewrite Hkeys; apply tally_keys_nodup).
+  assert (Hpos : forall k q, In (k, q) c -> (0 <= q)%Q).
+  { intros k q Hin. unfold c, of_counts in Hin. apply in_map_iff in Hin. destruct Hin as ([k' m] & Heq & _).
+    injection Heq as _ <-. cbn. change 0%Q with (inject_Z 0). rewrite <- Zle_Qle. lia. }
+  destruct (Qeq_dec (o_cov o) 1) as [H1|H1].
+  - rewrite (with_markov_cov_one _ n c H1). repeat split; try assumption.
+    intros m Hm. exfalso. apply HM. apply in_map_iff. now exists (M_key, m).
+  - assert (H0 : ~ (o_cov o == 0)%Q) by (intros H; rewrite H in Hc0; exact (Qlt_irrefl _ Hc0)).
+    destruct (with_markov_other (o_cov o) n c H1 H0) as [Hw _]. rewrite Hw, (dict_set_absent _ _ _ HM). clear Hw.
+    set (m := (inject_Z (Z.of_N n) / o_cov o - inject_Z (Z.of_N n))%Q).
+    assert (Hm0 : (0 <= m)%Q).
+    { apply markov_count_nonneg; [|assumption|assumption]. change 0%Q with (inject_Z 0). rewrite <- Zle_Qle. lia. }
+    assert (Htot : (Counters.total (c ++ [(M_key, m)]) == Counters.total c + m)%Q) by apply total_Q_snoc.
+    split; [|split; [|split]].
+    + rewrite Htot. apply Qlt_le_trans with (Counters.total c + 0)%Q; [now rewrite Qplus_0_r|].
+      apply Qplus_le_compat; [apply Qle_refl|assumption].
+    + rewrite map_app. apply NoDup_app_intro; [assumption|cbn; constructor; [intros []|constructor]|].
+      intros x Hx [<-|[]]. now apply HM.
+    + intros k q Hin. apply in_app_or in Hin. destruct Hin as [Hin|[Hin|[]]]; [now apply (Hpos k)|].
+      injection Hin as _ <-. assumption.
+    + intros m' Hin. apply in_app_or in Hin. destruct Hin as [Hin|[Hin|[]]].
+      * exfalso. apply HM. apply in_map_iff. now exists (M_key, m').
+      * injection Hin as <-. rewrite Htot. apply Qle_lt_trans with (0 + m)%Q; [rewrite Qplus_0_l; apply Qle_refl|].
+        apply Qplus_lt_le_compat; [assumption|apply Qle_refl].
+Qed.
+
+(* Grammar/grammar.txt itself *)
+Lemma base_file_facts (o : options QProb) raw rs r :
+  cov_ok o -> Forall (parsed_ok E) rs -> In r rs -> r_supported r = true ->
+  let bf : list (TextFile.str * Q) := base_file RQ (trained_of E o raw rs) in
+  NoDup (map fst bf) /\ (forall k p, In (k, p) bf -> (0 <= p)%Q) /\
+  (forall pm, In (M_key, pm) bf -> (pm < 1)%Q) /\ (Qsum (map snd bf) == 1)%Q.
+Proof.
+  intros Hcov Hrs Hr Hsup bf.
+  pose proof (base_counter_facts o raw rs r Hcov Hrs Hr Hsup) as H. cbv zeta in H.
+  destruct H as (HT & Hnd & Hpos & HM).
+  unfold bf, base_file. set (bc := base_counter RQ (trained_of E o raw rs)) in *.
+  split; [exact (calc_probs_keys_nodup QNum bc Hnd)|]. split; [|split].
+  - intros k p Hin. destruct (calc_probs_value QNum bc k p Hin) as (n & Hn & ->). cbn [ndiv QNum].
+    apply Qle_shift_div_l; [assumption|]. rewrite Qmult_0_l. now apply (Hpos k).
+  - intros pm Hin. destruct (calc_probs_value QNum bc _ pm Hin) as (n & Hn & ->). cbn [ndiv QNum].
+    apply Qlt_shift_div_r; [assumption|]. rewrite Qmult_1_l. now apply HM.
+  - apply (calc_probs_sum_one_Q bc). intros H. rewrite H in HT. exact (Qlt_irrefl _ HT).
+Qed.
+
+(* the loader's divisor 1 - P(M) is positive and is the mass of the other lines *)
+Lemma skip_total_facts (o : options QProb) raw rs r :
+  cov_ok o -> Forall (parsed_ok E) rs -> In r rs -> r_supported r = true ->
+  let bf : list (TextFile.str * Q) := base_file RQ (trained_of E o raw rs) in
+  (0 < skip_total (a_one RQ) (a_sub RQ) bf)%Q /\
+  (Qsum (map snd (filter (fun l => negb (Loader.is_M (fst l))) bf)) == skip_total (a_one RQ) (a_sub RQ) bf)%Q.
+Proof.
+  intros Hcov Hrs Hr Hsup bf.
+  pose proof (base_file_facts o raw rs r Hcov Hrs Hr Hsup) as H. cbv zeta in H. fold bf in H.
+  destruct H as (Hnd & _ & HM & Hsum).
+  pose proof (Qsum_filter_split (fun l : TextFile.str * Q => Loader.is_M (fst l)) snd bf) as Hsplit.
+  pose proof (Qsum_M_lines bf Hnd) as HMl.
+  unfold skip_total. cbn [a_one a_sub RQ].
+  destruct (Loader.scan_M bf) as [pm|] eqn:Es.
+  - apply scan_M_in in Es. pose proof (HM pm Es) as Hlt. Show.
